@@ -208,9 +208,16 @@ class StmtMixin:
         raise Unsupported("with statement")
 
     # ------------------------------------------------------------------ loops
-    def modified_in(self, body, p):
+    def modified_in(self, body, p, loop=None):
         """Syntactic over-approximation of what a loop body assigns: local names and (object, field) pairs."""
         names, fields = set(), set()
+        # value variables of `for k, v in d.items()` over a dict of objects are references into d
+        alias = {}
+        for n in ([loop] if loop is not None else []) + list(ast.walk(ast.Module(body=body, type_ignores=[]))):
+            if isinstance(n, ast.For) and isinstance(n.iter, ast.Call) and isinstance(n.iter.func, ast.Attribute) and n.iter.func.attr == "items" \
+                    and isinstance(n.iter.func.value, ast.Name) and isinstance(p.env.get(n.iter.func.value.id, SV(T.NONE)).ty, T.ObjMap) \
+                    and isinstance(n.target, (ast.Tuple, ast.List)) and len(n.target.elts) == 2 and isinstance(n.target.elts[1], ast.Name):
+                alias[n.target.elts[1].id] = (n.iter.func.value.id, p.env[n.iter.func.value.id].ty.cls)
 
         def root(t):
             # returns ('name', id) or ('field', obj, field)
@@ -251,6 +258,18 @@ class StmtMixin:
                 names.add(n.name)
             elif isinstance(n, ast.Call) and isinstance(n.func, ast.Attribute):
                 recv = n.func.value
+                om = None
+                if isinstance(recv, ast.Name) and recv.id in alias:
+                    om = alias[recv.id]
+                elif isinstance(recv, ast.Subscript) and isinstance(recv.value, ast.Name) and isinstance(p.env.get(recv.value.id, SV(T.NONE)).ty, T.ObjMap):
+                    om = (recv.value.id, p.env[recv.value.id].ty.cls)
+                if om is not None:
+                    c = self.frame_contract(om[1], n, p)
+                    if c is None:
+                        raise Unsupported(f"call of uncontracted method {om[1]}.{n.func.attr}")
+                    if c.modifies:
+                        names.add(om[0])
+                    continue
                 if isinstance(recv, ast.Name) and isinstance(p.env.get(recv.id, SV(T.NONE)).ty, T.Obj):
                     obj = p.env[recv.id]
                     c = self.frame_contract(obj.ty.cls, n, p)
@@ -321,13 +340,13 @@ class StmtMixin:
                     hint = self.cur.locals.get(n)
                     if hint is None:
                         raise Unsupported(f"loop modifies `{n}` whose type is not known (declare it in locals=)")
-                    p.env[n] = T.fresh_value(self.parse_ty(hint), f"{tag}_{n}")
+                    p.env[n] = self.fresh_of(self.parse_ty(hint), f"{tag}_{n}")
                 else:
-                    p.env[n] = T.fresh_value(v.ty, f"{tag}_{n}")
+                    p.env[n] = self.fresh_of(v.ty, f"{tag}_{n}")
             else:
                 hint = self.cur.locals.get(n)
                 if hint is not None:
-                    p.env[n] = T.fresh_value(self.parse_ty(hint), f"{tag}_{n}")
+                    p.env[n] = self.fresh_of(self.parse_ty(hint), f"{tag}_{n}")
         byobj = {}
         for o, f in fields:
             byobj.setdefault(o, []).append(f)
@@ -352,7 +371,7 @@ class StmtMixin:
             raise Unsupported(f"loop {ordinal} at line {s.lineno} has no invariant")
         it = self.iter_value(s.iter, p)
         kind = it["kind"]
-        names, fields = self.modified_in(s.body, p)
+        names, fields = self.modified_in(s.body, p, loop=s)
         tnames = [t.id for t in (s.target.elts if isinstance(s.target, (ast.Tuple, ast.List)) else [s.target]) if isinstance(t, ast.Name)]
         names -= set(tnames)
         pre_env = dict(p.env)
@@ -377,7 +396,10 @@ class StmtMixin:
         body.assume(it["in_range"](pos, body))
         self.assume_clauses(invs, body, pre_env=pre_env)
         elem = it["elem"](pos, body)
-        self.store(s.target, elem, body)
+        if "bind" in it:
+            it["bind"](s.target, elem, body)
+        else:
+            self.store(s.target, elem, body)
         outs = []
         if self.feasible(body):
             for q, out in self.block(s.body, body):
@@ -442,6 +464,24 @@ class StmtMixin:
         items_of = None
         if isinstance(e, ast.Call) and isinstance(e.func, ast.Attribute) and e.func.attr == "items" and not e.args:
             m = self.ev(e.func.value, p)
+            if isinstance(m.ty, T.ObjMap):
+                if not isinstance(e.func.value, ast.Name):
+                    raise Unsupported("items() of a dict of objects that is not a plain name")
+                mname = e.func.value.id
+                keys_call = ast.fix_missing_locations(ast.copy_location(
+                    ast.Call(func=ast.copy_location(ast.Attribute(value=e.func.value, attr="keys", ctx=ast.Load()), e), args=[], keywords=[]), e))
+                inner = self.iter_value(keys_call, p)
+
+                def bind(target, elem, q):
+                    # for k, v in d.items(): v is a reference into d (d as it is at this point of the iteration)
+                    if not (isinstance(target, (ast.Tuple, ast.List)) and len(target.elts) == 2 and all(isinstance(t, ast.Name) for t in target.elts)):
+                        raise Unsupported("items() of a dict of objects needs a `k, v` target")
+                    cur = q.env[mname]
+                    obj = self.om_get(cur, elem.t)
+                    obj.ref = (mname, elem.t)
+                    q.env[target.elts[0].id] = elem
+                    q.env[target.elts[1].id] = obj
+                return dict(inner, bind=bind)
             if isinstance(m.ty, T.Map):
                 items_of = m
                 v = T.scalar(T.Set(m.ty.k), m.dom)
